@@ -1,6 +1,6 @@
 (* Corollaries used by Props/C11.v and Props/C12.v. *)
 From Coq Require Import List NArith Bool Lia Arith Permutation.
-From HV Require Import Base.Utf8 Tendril.Heap Tendril.TModel Tendril.TSpec Tendril.TUtf8 Tendril.TInv
+From HV Require Import Base.Utf8 Tendril.Heap Tendril.TModel Tendril.TSpec Tendril.TUtf8 Tendril.TWtf8 Tendril.TInv
      Tendril.TPrim Tendril.TFmt Tendril.TOps Tendril.TPool Tendril.TExec Tendril.TProofs.
 Import ListNotations.
 Local Open Scope N_scope.
@@ -29,62 +29,6 @@ Qed.
 Lemma abs_pool0 n : abs st0 (pool0 n) = repeat None n.
 Proof. unfold abs, pool0. induction n; cbn; congruence. Qed.
 
-(* ------------------------------------------------------------------ histories without WTF-8 *)
-Definition op_wtf8 (o : op) : bool :=
-  match o with
-  | ONew _ FWtf8 _ | OWithCap _ FWtf8 _ | OReint _ FWtf8 => true
-  | _ => false
-  end.
-
-Definition pool_nowtf8 (sp : spool) : Prop := forall i f x, sget sp i = Some (f, x) -> f <> FWtf8.
-
-Lemma nowtf8_set sp i f x : pool_nowtf8 sp -> f <> FWtf8 -> pool_nowtf8 (set_nth i (Some (f, x)) sp).
-Proof.
-  intros H Hf j g y. unfold sget. rewrite nth_error_set_nth. destruct (Nat.eqb i j).
-  - destruct (Nat.ltb i (length sp)); [|discriminate]. intros [= <- <-]. exact Hf.
-  - apply H.
-Qed.
-Lemma nowtf8_set_none sp i : pool_nowtf8 sp -> pool_nowtf8 (set_nth i None sp).
-Proof.
-  intros H j g y. unfold sget. rewrite nth_error_set_nth. destruct (Nat.eqb i j).
-  - destruct (Nat.ltb i (length sp)); discriminate.
-  - apply H.
-Qed.
-
-Lemma spec_op_nowtf8 o sp : pool_nowtf8 sp -> op_wtf8 o = false -> pool_nowtf8 (snd (spec_op o sp)).
-Proof.
-  intros H Ho.
-  destruct o; cbn [spec_op];
-    repeat match goal with
-           | |- context [sget sp ?i] =>
-             let E := fresh "E" in destruct (sget sp i) as [[? ?]|] eqn:E; [apply H in E|]
-           | |- context [if ?b then _ else _] => destruct b
-           | |- context [match ?f with FBytes => _ | _ => _ end] => destruct f
-           | |- context [match spop_char ?f ?x with _ => _ end] => destruct (spop_char f x) as [[? ?]|]
-           | |- context [match srun ?f ?k ?m ?x with _ => _ end] => destruct (srun f k m x) as [[? ?]|]
-           | |- context [match encode_char ?f ?c with _ => _ end] => destruct (encode_char f c)
-           end; cbn [snd]; auto;
-    repeat first [apply nowtf8_set | apply nowtf8_set_none]; auto; try discriminate; try congruence;
-    match goal with |- ?f <> FWtf8 => destruct f; cbn in Ho; congruence end.
-Qed.
-
-Lemma nowtf8_no_corner ops : forall sp, pool_nowtf8 sp -> forallb (fun o => negb (op_wtf8 o)) ops = true ->
-  no_corner ops sp = true.
-Proof.
-  induction ops as [|o r IH]; intros sp H Ho; [reflexivity|].
-  cbn [forallb] in Ho. apply andb_true_iff in Ho. destruct Ho as [Ho Hr]. apply negb_true_iff in Ho.
-  cbn [no_corner]. apply andb_true_iff. split.
-  - destruct o; try reflexivity. cbn. destruct (sget sp d) as [[f x]|] eqn:E; auto.
-    apply H in E. destruct f; auto.
-  - apply IH; auto. apply spec_op_nowtf8; auto.
-Qed.
-
-Lemma nowtf8_repeat n : pool_nowtf8 (repeat None n).
-Proof.
-  intros i f x. unfold sget. destruct (nth_error (repeat None n) i) as [e|] eqn:E; [|discriminate].
-  apply nth_error_In, repeat_spec in E. subst. discriminate.
-Qed.
-
 (* ------------------------------------------------------------------ copy on write, at the specification level *)
 Lemma spec_op_frame o sp j : ~ In j (targets o) -> nth_error (snd (spec_op o sp)) j = nth_error sp j.
 Proof.
@@ -103,12 +47,12 @@ Proof.
 Qed.
 
 (* mutating one tendril never changes another: at the level of the heap model *)
-Theorem exec_frame o p s out p' s' ev j : PInv s p -> wtf8_corner o p = false ->
+Theorem exec_frame o p s out p' s' ev j : PInv s p ->
   exec_op o p s = Ok ((out, p'), s', ev) -> ~ In j (targets o) ->
   sget (abs s' p') j = sget (abs s p) j.
 Proof.
-  intros HP Hc He Hj. pose proof (exec_cases o p s HP) as H. rewrite He in H.
-  destruct H as [_ [_ [_ [_ Hs]]]]. specialize (Hs Hc). cbn [fst snd] in Hs.
+  intros HP He Hj. pose proof (exec_cases o p s HP) as H. rewrite He in H.
+  destruct H as [_ [_ [_ [_ Hs]]]]. cbn [fst snd] in Hs.
   unfold sget. rewrite <- (spec_op_frame o (abs s p) j Hj), Hs. reflexivity.
 Qed.
 
@@ -146,56 +90,19 @@ Proof.
   intros HI Hb. destruct (HInv_buf _ _ _ _ HI Hb) as [_ [_ [H|[H1 [H2 [H3 _]]]]]]; auto.
 Qed.
 
-(* ------------------------------------------------------------------ WTF-8: the validator is wrong *)
-(* generalised UTF-8 (surrogates allowed), strict otherwise *)
-Definition dec1g (bs : list N) : option (N * list N) :=
-  match bs with
-  | [] => None
-  | b0 :: t =>
-    if b0 <? 0x80 then Some (b0, t)
-    else if b0 <? 0xC2 then None
-    else if b0 <? 0xE0 then
-      match t with
-      | b1 :: t1 => if is_cont b1 then Some ((b0 - 0xC0) * 64 + (b1 - 0x80), t1) else None
-      | _ => None
-      end
-    else if b0 <? 0xF0 then
-      match t with
-      | b1 :: b2 :: t2 =>
-        if is_cont b1 && is_cont b2 && (negb (b0 =? 0xE0) || (0xA0 <=? b1))
-        then Some ((b0 - 0xE0) * 4096 + (b1 - 0x80) * 64 + (b2 - 0x80), t2) else None
-      | _ => None
-      end
-    else if b0 <? 0xF5 then
-      match t with
-      | b1 :: b2 :: b3 :: t3 =>
-        if is_cont b1 && is_cont b2 && is_cont b3
-           && (negb (b0 =? 0xF0) || (0x90 <=? b1)) && (negb (b0 =? 0xF4) || (b1 <? 0x90))
-        then Some ((b0 - 0xF0) * 262144 + (b1 - 0x80) * 4096 + (b2 - 0x80) * 64 + (b3 - 0x80), t3)
-        else None
-      | _ => None
-      end
-    else None
-  end.
+(* ------------------------------------------------------------------ WTF-8 *)
+(* the validator of the implementation (WTF8::validate over futf::classify, as
+   repaired) accepts exactly the WTF-8 of the specification *)
+Theorem wtf8_validate_exact b : validate FWtf8 b = wtf8_spec b.
+Proof. apply wtf8_validate_ok. Qed.
 
-Fixpoint wtf8_spec_fuel (fuel : nat) (prev_lead : bool) (bs : list N) : bool :=
-  match bs with
-  | [] => true
-  | _ =>
-    match fuel with
-    | O => false
-    | S f =>
-      match dec1g bs with
-      | Some (c, r) =>
-        let lead := (0xD800 <=? c) && (c <=? 0xDBFF) in
-        let trail := (0xDC00 <=? c) && (c <=? 0xDFFF) in
-        if prev_lead && trail then false else wtf8_spec_fuel f lead r
-      | None => false
-      end
-    end
-  end.
-Definition wtf8_spec (bs : list N) : bool := wtf8_spec_fuel (length bs) false bs.
-
-Theorem wtf8_validate_refuted :
-  exists b, validate FWtf8 b = true /\ wtf8_spec b = false.
-Proof. exists [0xC3; 0xA9; 0x80]. split; vm_compute; reflexivity. Qed.
+(* a stray continuation byte after a complete sequence, garbage after it, and a
+   surrogate pair written as two 3-byte sequences are rejected; an unpaired
+   surrogate and a reversed pair are accepted *)
+Theorem wtf8_validate_witnesses :
+  validate FWtf8 [0xC3; 0xA9; 0x80] = false /\
+  validate FWtf8 [0xE2; 0xA9; 0x80; 0x82; 0xC0; 0x41] = false /\
+  validate FWtf8 [0xED; 0xA0; 0x80; 0xED; 0xB0; 0x80] = false /\
+  validate FWtf8 [0xED; 0xA0; 0x80] = true /\
+  validate FWtf8 [0xED; 0xB0; 0x80; 0xED; 0xA0; 0x80] = true.
+Proof. repeat split; vm_compute; reflexivity. Qed.
